@@ -93,6 +93,7 @@ def handle (j : Json) : Except String Json := do
   match op with
   | "main" =>
     let tty ← jbool j "tty"
+    let keep ← jbool j "keep"
     let opts ← (← jarr j "opts").toList.mapM optOf
     let fsl ← (← jarr j "fs").toList.mapM fun e => do
       let a ← e.getArr?
@@ -109,8 +110,8 @@ def handle (j : Json) : Except String Json := do
     let fs := fsOf fsl
     let unreadable ← jNatList (← jarr j "unreadable")
     let env : Env := ⟨rwOf rwl, fun c => !unreadable.contains c⟩
-    let parse := parseOptions tty opts
-    let r := Pfb.C09.main env tty opts fs args answers
+    let parse := parseOptions keep tty opts
+    let r := Pfb.C09.main env keep tty opts fs args answers
     let parseJ : Json := match parse with
       | .ok acts => Json.mkObj [("ok", Json.arr (acts.map actionJ).toArray)]
       | .error .optionValueError => Json.mkObj [("err", "optionValueError")]
